@@ -141,7 +141,10 @@ impl<'a> GroupResource<'a> {
 			let mut icon_entry = [0u32; 4];
 			dataview::bytes_mut(&mut icon_entry)[..14].copy_from_slice(dataview::bytes(entry));
 			icon_entry[3] = image_offset;
-			image_offset += entry.bytes_in_resource();
+			// The offsets in the file are 32-bit
+			image_offset = image_offset
+				.checked_add(entry.bytes_in_resource())
+				.ok_or_else(|| io::Error::new(io::ErrorKind::InvalidData, "group resource does not fit in a 4 GiB file"))?;
 			dest.write(dataview::bytes(&icon_entry))?;
 		}
 		// Append the bytes for every entry
